@@ -50,6 +50,7 @@ def r1(ctx):
 
 def r2(ctx):
     c19.r3(ctx, rule="C17.R2")
+    named_layers_rule(ctx, "C17.R2")
 
 
 def r3(ctx):
@@ -95,6 +96,17 @@ def r4(ctx):
         ctx.check(ok, "C17.R4", "SimpleFormula.required_variables parses only python factors as Python", g.module.line(c), ctx.construct(sf, text="python-only parsing"),
                   f"the Python-AST extractor is applied without first excluding {[k for k, v in excl.items() if not v]} factors: a back-quoted name such as "
                   f"`a|b` is split into a and b, and `c d` raises SyntaxError")
+        gev = P.func("formulaic.utils.variables.get_expression_variables").node
+        from ..core import arg_for
+        a_al = arg_for(c, gev, "aliases")
+        san = [x for x in ast.walk(c) if isinstance(x, ast.Call) and dotted(x.func) == "sanitize_variable_names"]
+        if san:
+            sfn = P.func("formulaic.utils.code.sanitize_variable_names").node
+            s_al = arg_for(san[0], sfn, "aliases")
+            ok_al = a_al is not None and s_al is not None and norm(a_al) == norm(s_al)
+            ctx.check(ok_al, "C17.R4", "sanitised names are mapped back through the same alias table", g.module.line(c), ctx.construct(sf, text="aliases round trip"),
+                      f"sanitize_variable_names fills `{norm(s_al) if s_al is not None else None}` but get_expression_variables is given aliases=`{norm(a_al) if a_al is not None else None}`: "
+                      f"quoted names inside Python factors are reported under their sanitised spelling")
         arg = c.args[0] if c.args else None
         ok = arg is not None and "sanitize_variable_names(" in norm(arg)
         ctx.check(ok, "C17.R4", "python factors are back-tick sanitised before their variables are extracted", g.module.line(c),
@@ -104,6 +116,30 @@ def r4(ctx):
               "expected the lookup branch to return Variable(factor.expr, roles=('value',))")
     ok = "if 'value' in variable.roles" in norm(sf.node)
     ctx.check(ok, "C17.R4", "only value-role variables are required (callables are not data)", sf.where, ctx.construct(sf, text="roles"), "role filter missing")
+
+
+def named_layers_rule(ctx, rule: str):
+    """named_layers: nearer layers win — nested layers are merged farthest-first, direct children override what
+    their siblings' nested layers contributed, and the mapping's own name wins overall."""
+    P = ctx.project
+    m = P.method("formulaic.utils.layered_mapping.LayeredMapping", "named_layers")
+    fn = m.node
+    ctx.look()
+    loops = [n for n in walk_no_nested(fn) if isinstance(n, ast.For)]
+    ok_iter = len(loops) == 1 and norm(loops[0].iter) == "reversed(self._layers)"
+    body = norm(loops[0]) if loops else ""
+    m_local = None
+    import re as _re
+    mm = _re.search(r"(\w+)\[layer\.name\] = layer", body)
+    acc = _re.search(r"(\w+)\.update\(layer\.named_layers\)", body)
+    ok_body = mm is not None and acc is not None and mm.group(1) != acc.group(1) and "isinstance(layer, LayeredMapping)" in body and "if layer.name:" in body
+    after = [norm(s_) for s_ in fn.body if loops and getattr(s_, "lineno", 0) > loops[0].lineno]
+    ok_after = bool(mm and acc) and after[:1] == [f"{acc.group(1)}.update({mm.group(1)})"] and f"{acc.group(1)}[self.name] = self" in " ".join(after) \
+        and after[-1] == f"return {acc.group(1)}"
+    ctx.check(ok_iter and ok_body and ok_after, rule, "named_layers: the nearest layer carrying a name wins (first layer first, direct children over nested ones)", m.where,
+              ctx.construct(m, text="named layer priority"),
+              f"iteration=`{norm(loops[0].iter) if loops else None}` (expected reversed(self._layers)), direct children collected separately={ok_body}, "
+              f"applied after the nested ones={ok_after}: a caller context with its own nested `data` layer would shadow the real data layer for `.`")
 
 
 def _guarded_by(P: Project, node: ast.AST, test_text: str) -> bool:
@@ -174,4 +210,11 @@ def r6(ctx):
               "evaluation failures must be wrapped in FactorEvaluationError")
 
 
-RULES = [("C17.R1", r1), ("C17.R2", r2), ("C17.R3", r3), ("C17.R4", r4), ("C17.R5", r5), ("C17.R6", r6)]
+def r7(ctx):
+    """the caller's context reaches the materializer on every entry-point path (FORWARD, as C05.R3)."""
+    from .c05 import forward_data_context
+    forward_data_context(ctx, "C17.R7", "context")
+    forward_data_context(ctx, "C17.R7", "data")
+
+
+RULES = [("C17.R1", r1), ("C17.R2", r2), ("C17.R3", r3), ("C17.R4", r4), ("C17.R5", r5), ("C17.R6", r6), ("C17.R7", r7)]
